@@ -75,6 +75,10 @@ CLAIMED = {
             'templates, pooled covariance, pseudo-inverse and static / DPA scores of the real attacks (several batch sizes, both precisions, class lists with gaps) equal the exact rationals; '
             'run before build refused.',
             'Trace length <= 2 (exact pseudo-inverse); covariance/scores claimed when every declared class has >= 2 building traces; building sets are sampled, not enumerated.', '6/C14'),
+    'C20': ('TLA+ model of the Synchronizer.run loop with a nondeterministic accept/raise/None user function (Synchronizer.tla) model-checked by TLC over every script in the bound; every script executed on a real Synchronizer',
+            'TLC checks for every script of length <= 8(9) that the output is the accepted subsequence in input order, counters match (incl. all rejected), a second run changes nothing; a wrong write index is refuted. '
+            'Every script <= 6(8) and long scripts with failure runs around the 8/16/32 warning limits are executed with ETS output (str / Path), equal or different returned lengths: output rows, all metadata, counters, single-use guard.',
+            'Returned data of one run has one length (rectangular output); warning counts are compared as model drift only.', '6/C20'),
 }
 
 NOT_APPLICABLE = {}
